@@ -265,15 +265,38 @@ def c07(work, tier, seed):
         rng.shuffle(sched)
         mk(sched, n, i, big=True, contend={"slow": 1 + i % 2, "kib": 6144 if tier == "quick" else 12288})
 
+    # pairing of legacy connections by identifier, for several identifier forms (a driver run of its own that does
+    # not depend on the hook channel: it is judged even if the tunnels above cannot be driven at all)
+    pairing = []
+    for i in range(2 if tier == "quick" else 10):
+        token = i % 2 == 0
+        cfg = {"tokenAuth": token, "smartCard": False, "auth": "openid" if token else "ntlm", "sel": "roundrobin", "hosts": hosts[:1], "verifyIp": True, "idle": 0}
+        pairing.append({"id": "p%05d" % i, "origin": "pairing", "cfg": cfg, "tunnels": [], "schedule": [], "pairing": True})
+
     def owns(v):
         return True   # in a multi-tunnel run every guard is evaluated with the tunnel's own parameters: any failure is interference
-    out, rep, res = fa.generic("C07", work, tier, seed, "multi", "TunnelTrace", scripts, design,
-                               lambda v: "%s/%s/%s" % (v["guard"], v["a"], v["b"]),
-                               "Gateway.tla: isolation invariants (client/host get only their own tunnel's data, pairing by connection id) model-checked. Conformance: interleavings of the steps of 2 and 3 tunnels enumerated by TLC "
-                               "(Interleave.tla; quick: uniform sample, thorough: more) and seeded random schedules of 8..64 tunnels, mixed transports, distinct users / tokens / hosts / client addresses, some tunnels misbehaving "
-                               "(another tunnel's host, bad cookie, out-of-order) - executed step by step on one real gateway; each tunnel's steps are validated by TLC (TunnelTrace) with that tunnel's own parameters, and after every "
-                               "payload the other tunnels' hosts and clients are checked for leaked bytes", owns=owns, jobs=12)
+    pout, prep, pres = fa.generic("C07", work, tier, seed, "multi", "TunnelTrace", pairing, design,
+                                  lambda v: "%s/%s/%s" % (v["guard"], v["a"], v["b"]), "pairing of legacy connections by identifier", owns=owns, jobs=4, tag="c07-pairing")
+    try:
+        out, rep, res = c07_main(work, tier, seed, scripts, design, owns)
+    except HarnessError as e:
+        if pout.violations:
+            pout.coverage["tunnel_runs_failed"] = str(e)[:800]
+            return pout
+        raise
+    out.violations += pout.violations
+    out.coverage["pairing"] = {"cells": [c for c in pout.coverage.get("cells", []) if "pair-" in c], "evaluations": pout.coverage.get("evaluations")}
     out.coverage["interleavings_2_tunnels"] = {"total": tot2, "run": len(il2)}
     out.coverage["interleavings_3_tunnels"] = {"total": tot3, "run": len(il3)}
     out.coverage["tunnel_model_states"] = proto.get("distinct")
     return out
+
+
+def c07_main(work, tier, seed, scripts, design, owns):
+    return fa.generic("C07", work, tier, seed, "multi", "TunnelTrace", scripts, design,
+                               lambda v: "%s/%s/%s" % (v["guard"], v["a"], v["b"]),
+                               "Gateway.tla: isolation invariants (client/host get only their own tunnel's data, pairing by connection id) model-checked. Conformance: interleavings of the steps of 2 and 3 tunnels enumerated by TLC "
+                               "(Interleave.tla; quick: uniform sample, thorough: more) and seeded random schedules of 8..64 tunnels, mixed transports, distinct users / tokens / hosts / client addresses, some tunnels misbehaving "
+                               "(another tunnel's host, bad cookie, out-of-order) - executed step by step on one real gateway; each tunnel's steps are validated by TLC (TunnelTrace) with that tunnel's own parameters, and after every "
+                               "payload the other tunnels' hosts and clients are checked for leaked bytes; all tunnels moving distinct streams at the same time with slow clients; "
+                               "pairing of legacy connections under identifiers of several forms", owns=owns, jobs=12)
